@@ -128,6 +128,7 @@ type Stats struct {
 	MaxDepth     int
 	Fallbacks, Fallbacks2 int
 	PortfolioZ3 int
+	Retries     int
 }
 
 type Exec struct {
@@ -411,6 +412,14 @@ func (ex *Exec) sat(pc *PCNode, extra *Term) Result {
 	// tier 3: z3 from scratch (non-incremental strategy), provides models
 	ex.msolver = ex.alt
 	r := ex.alt.Check(pc, extra)
+	if r == Unknown {
+		// one more attempt with three times the limit (time-outs are mostly load on the machine)
+		old := ex.alt.timeoutMs
+		ex.alt.timeoutMs = 3 * old
+		r = ex.alt.Check(pc, extra)
+		ex.alt.timeoutMs = old
+		ex.stats.Retries++
+	}
 	if r == Unknown {
 		ex.unresolved++
 	}
